@@ -1167,6 +1167,343 @@ pub proof fn lemma_same_entry_instance(t: StringTable, original: &str)
 """
 
 
+DECL = r"""
+// ======== what the fold stores, said WITHOUT the fold (C01: one entry per method record of the class, in file order; C03: the by-params index holds the
+// first occurrence of every (name, arguments, original name) among the records that are not inlined callees; nothing leaks between blocks) ========
+// the source file in force after the first n records of block b: the value of the last `sourceFile` header among b[1..n)
+pub open spec fn file_at<'s>(b: Seq<ProguardRecord<'s>>, n: int) -> Option<&'s str>
+    decreases n
+{
+    if n <= 1 { None } else {
+        match b[n - 1] {
+            ProguardRecord::Header { key, value } => if key@ == "sourceFile"@ { value } else { file_at(b, n - 1) },
+            _ => file_at(b, n - 1),
+        }
+    }
+}
+pub open spec fn rec_name<'s>(r: ProguardRecord<'s>) -> &'s str { match r { ProguardRecord::Method { obfuscated, .. } => obfuscated, _ => "" } }
+pub open spec fn rec_args<'s>(r: ProguardRecord<'s>) -> &'s str { match r { ProguardRecord::Method { arguments, .. } => arguments, _ => "" } }
+pub open spec fn rec_orig<'s>(r: ProguardRecord<'s>) -> &'s str { match r { ProguardRecord::Method { original, .. } => original, _ => "" } }
+pub open spec fn rec_lm<'s>(r: ProguardRecord<'s>) -> Option<LineMapping> { match r { ProguardRecord::Method { line_mapping, .. } => line_mapping, _ => None } }
+pub open spec fn rec_key<'s>(r: ProguardRecord<'s>) -> (&'s str, &'s str, &'s str) { (rec_name(r), rec_args(r), rec_orig(r)) }
+// the entry a method record denotes, given the source file in force where it stands
+pub open spec fn rec_entry<'s>(r: ProguardRecord<'s>, file: Option<&'s str>) -> MemberMapping<'s> {
+    match r {
+        ProguardRecord::Method { original, original_class, line_mapping, .. } => stored_entry(line_mapping, original_class, original, file),
+        _ => stored_entry(None, None, "", file),
+    }
+}
+pub open spec fn is_method_named<'s>(r: ProguardRecord<'s>, m: &'s str) -> bool { r is Method && rec_name(r) == m }
+// C01: the entries of obfuscated method m among the first n records of the block -- one per method record with that name, in file order
+pub open spec fn entries_of<'s>(b: Seq<ProguardRecord<'s>>, m: &'s str, n: int) -> Seq<MemberMapping<'s>>
+    decreases n
+{
+    if n <= 1 { Seq::empty() } else {
+        let p = entries_of(b, m, n - 1);
+        if is_method_named(b[n - 1], m) { p.push(rec_entry(b[n - 1], file_at(b, n - 1))) } else { p }
+    }
+}
+// C03: record i of the block is a method record that is not an inlined callee (the record after it does not repeat its obfuscated range)
+pub open spec fn counted<'a, 's>(b: Seq<ProguardRecord<'s>>, after: Option<&'a ProguardRecord<'s>>, i: int) -> bool {
+    b[i] is Method && !is_inlined_callee(rec_lm(b[i]), after_of(b, after, i + 1))
+}
+// ... and no earlier such record of the block has the same (obfuscated name, arguments, original name)
+pub open spec fn first_real<'a, 's>(b: Seq<ProguardRecord<'s>>, after: Option<&'a ProguardRecord<'s>>, i: int) -> bool {
+    counted(b, after, i) && forall|j: int| 1 <= j < i && #[trigger] counted(b, after, j) ==> rec_key(b[j]) != rec_key(b[i])
+}
+pub open spec fn in_by<'a, 's>(b: Seq<ProguardRecord<'s>>, after: Option<&'a ProguardRecord<'s>>, m: &'s str, a: &'s str, i: int) -> bool {
+    is_method_named(b[i], m) && rec_args(b[i]) == a && first_real(b, after, i)
+}
+pub open spec fn by_entries_of<'a, 's>(b: Seq<ProguardRecord<'s>>, after: Option<&'a ProguardRecord<'s>>, m: &'s str, a: &'s str, n: int) -> Seq<MemberMapping<'s>>
+    decreases n
+{
+    if n <= 1 { Seq::empty() } else {
+        let p = by_entries_of(b, after, m, a, n - 1);
+        if in_by(b, after, m, a, n - 1) { p.push(rec_entry(b[n - 1], file_at(b, n - 1))) } else { p }
+    }
+}
+pub open spec fn seen_upto<'a, 's>(b: Seq<ProguardRecord<'s>>, after: Option<&'a ProguardRecord<'s>>, n: int, k: (&'s str, &'s str, &'s str)) -> bool {
+    exists|j: int| 1 <= j < n && #[trigger] counted(b, after, j) && rec_key(b[j]) == k
+}
+
+// the fold over a block, characterised: file in force, de-duplication set, per-name entry list, per-(name, arguments) index
+pub proof fn lemma_block_file_and_seen<'a, 's>(s: AState<'s>, b: Seq<ProguardRecord<'s>>, after: Option<&'a ProguardRecord<'s>>, n: int, k: (&'s str, &'s str, &'s str))
+    requires is_block(b), 1 <= n <= b.len(),
+    ensures
+        fold_from(s, b, after, true, n).cur.file_name == file_at(b, n),
+        fold_from(s, b, after, false, n).cur.file_name == file_at(b, n),
+        fold_from(s, b, after, true, n).seen.contains(k) <==> seen_upto(b, after, n, k),
+    decreases n
+{
+    if n > 1 {
+        lemma_block_file_and_seen(s, b, after, n - 1, k);
+        assert(!is_class_rec(b[n - 1]));
+        let s1 = fold_from(s, b, after, true, n - 1);
+        let s2 = fold_from(s, b, after, true, n);
+        if seen_upto(b, after, n - 1, k) {
+            let j = choose|j: int| 1 <= j < n - 1 && #[trigger] counted(b, after, j) && rec_key(b[j]) == k;
+            assert(1 <= j < n && counted(b, after, j) && rec_key(b[j]) == k);
+        }
+        if counted(b, after, n - 1) && rec_key(b[n - 1]) == k { assert(seen_upto(b, after, n, k)); }
+        if seen_upto(b, after, n, k) {
+            let j = choose|j: int| 1 <= j < n && #[trigger] counted(b, after, j) && rec_key(b[j]) == k;
+            if j < n - 1 { assert(seen_upto(b, after, n - 1, k)); }
+        }
+        match b[n - 1] {
+            ProguardRecord::Method { ty, original, obfuscated, arguments, original_class, line_mapping } => {
+                assert(rec_key(b[n - 1]) == (obfuscated, arguments, original));
+                assert(s2.seen == method_seen(s1.seen, true, line_mapping, obfuscated, original, arguments, after_of(b, after, n)));
+            },
+            _ => { assert(!counted(b, after, n - 1)); },
+        }
+    } else {
+        assert(is_class_rec(b[0]));
+        assert(!seen_upto(b, after, 1, k));
+    }
+}
+
+pub proof fn lemma_block_entries<'a, 's>(s: AState<'s>, b: Seq<ProguardRecord<'s>>, after: Option<&'a ProguardRecord<'s>>, init: bool, n: int, m: &'s str)
+    requires is_block(b), 1 <= n <= b.len(),
+    ensures
+        members_of(fold_from(s, b, after, init, n).cur, m).all == entries_of(b, m, n),
+        fold_from(s, b, after, init, n).cur.members.contains_key(m) <==> entries_of(b, m, n).len() > 0,
+    decreases n
+{
+    if n > 1 {
+        lemma_block_entries(s, b, after, init, n - 1, m);
+        lemma_block_file_and_seen(s, b, after, n - 1, (m, m, m));
+        assert(!is_class_rec(b[n - 1]));
+        let s1 = fold_from(s, b, after, init, n - 1);
+        match b[n - 1] {
+            ProguardRecord::Method { ty, original, obfuscated, arguments, original_class, line_mapping } => {
+                assert(s1.cur.file_name == file_at(b, n - 1));
+            },
+            _ => {},
+        }
+    } else {
+        assert(is_class_rec(b[0]));
+    }
+}
+
+pub proof fn lemma_block_by_params<'a, 's>(s: AState<'s>, b: Seq<ProguardRecord<'s>>, after: Option<&'a ProguardRecord<'s>>, n: int, m: &'s str, a: &'s str)
+    requires is_block(b), 1 <= n <= b.len(),
+    ensures
+        by_of(members_of(fold_from(s, b, after, true, n).cur, m), a) == by_entries_of(b, after, m, a, n),
+        by_of(members_of(fold_from(s, b, after, false, n).cur, m), a) == Seq::<MemberMapping<'s>>::empty(),
+    decreases n
+{
+    if n > 1 {
+        lemma_block_by_params(s, b, after, n - 1, m, a);
+        assert(!is_class_rec(b[n - 1]));
+        let s1 = fold_from(s, b, after, true, n - 1);
+        match b[n - 1] {
+            ProguardRecord::Method { ty, original, obfuscated, arguments, original_class, line_mapping } => {
+                let k = (obfuscated, arguments, original);
+                lemma_block_file_and_seen(s, b, after, n - 1, k);
+                assert(rec_key(b[n - 1]) == k);
+                assert(s1.seen.contains(k) <==> seen_upto(b, after, n - 1, k));
+                if counted(b, after, n - 1) {
+                    if seen_upto(b, after, n - 1, k) {
+                        let j = choose|j: int| 1 <= j < n - 1 && #[trigger] counted(b, after, j) && rec_key(b[j]) == k;
+                        assert(!first_real(b, after, n - 1));
+                    } else {
+                        assert(first_real(b, after, n - 1)) by {
+                            assert forall|j: int| 1 <= j < n - 1 && #[trigger] counted(b, after, j) implies rec_key(b[j]) != rec_key(b[n - 1]) by {
+                                if rec_key(b[j]) == k { assert(seen_upto(b, after, n - 1, k)); }
+                            }
+                        }
+                    }
+                }
+            },
+            _ => {},
+        }
+    } else {
+        assert(is_class_rec(b[0]));
+    }
+}
+
+// C03, "inlined callees never appear, duplicates never appear": every entry of the index comes from a record that is not an inlined callee, and
+// two entries under the same (name, arguments) have different original names
+pub proof fn lemma_by_params_entries_come_from_first_real_records<'a, 's>(b: Seq<ProguardRecord<'s>>, after: Option<&'a ProguardRecord<'s>>, m: &'s str, a: &'s str, n: int, x: int)
+    requires is_block(b), 1 <= n <= b.len(), 0 <= x < by_entries_of(b, after, m, a, n).len(),
+    ensures /*@L:every_entry_of_the_parameter_index_comes_from_a_record_that_is_not_an_inlined_callee:C03*/
+        exists|i: int| 1 <= i < n && #[trigger] in_by(b, after, m, a, i) && by_entries_of(b, after, m, a, n)[x] == rec_entry(b[i], file_at(b, i))
+            && by_entries_of(b, after, m, a, n)[x].original == rec_orig(b[i]),
+    decreases n
+{
+    if n > 1 {
+        let p = by_entries_of(b, after, m, a, n - 1);
+        if x < p.len() {
+            lemma_by_params_entries_come_from_first_real_records(b, after, m, a, n - 1, x);
+            let i = choose|i: int| 1 <= i < n - 1 && #[trigger] in_by(b, after, m, a, i) && p[x] == rec_entry(b[i], file_at(b, i)) && p[x].original == rec_orig(b[i]);
+            assert(1 <= i < n && in_by(b, after, m, a, i));
+        } else {
+            assert(in_by(b, after, m, a, n - 1));
+        }
+    }
+}
+pub proof fn lemma_parameter_index_has_no_duplicates<'a, 's>(b: Seq<ProguardRecord<'s>>, after: Option<&'a ProguardRecord<'s>>, m: &'s str, a: &'s str, n: int, x: int, y: int)
+    requires is_block(b), 1 <= n <= b.len(), 0 <= x < y < by_entries_of(b, after, m, a, n).len(),
+    ensures /*@L:two_entries_under_the_same_name_and_arguments_have_different_original_names:C03*/
+        by_entries_of(b, after, m, a, n)[x].original != by_entries_of(b, after, m, a, n)[y].original,
+    decreases n
+{
+    if n > 1 {
+        let p = by_entries_of(b, after, m, a, n - 1);
+        if y < p.len() {
+            lemma_parameter_index_has_no_duplicates(b, after, m, a, n - 1, x, y);
+        } else {
+            // y is the entry of record n-1, which is a first occurrence; x comes from an earlier counted record with the same name and arguments
+            lemma_by_params_entries_come_from_first_real_records(b, after, m, a, n - 1, x);
+            let i = choose|i: int| 1 <= i < n - 1 && #[trigger] in_by(b, after, m, a, i) && p[x] == rec_entry(b[i], file_at(b, i)) && p[x].original == rec_orig(b[i]);
+            assert(in_by(b, after, m, a, n - 1));
+            assert(counted(b, after, i));
+            assert(rec_key(b[i]) != rec_key(b[n - 1]));
+        }
+    }
+}
+// ... and "one frame per distinct (name, arguments, original name)": every record that is not an inlined callee is represented
+pub proof fn lemma_every_real_method_is_in_the_parameter_index<'a, 's>(b: Seq<ProguardRecord<'s>>, after: Option<&'a ProguardRecord<'s>>, n: int, i: int)
+    requires is_block(b), 1 <= i < n <= b.len(), counted(b, after, i),
+    ensures /*@L:every_method_record_that_is_not_an_inlined_callee_is_represented_in_the_parameter_index:C03*/
+        exists|x: int| 0 <= x < by_entries_of(b, after, rec_name(b[i]), rec_args(b[i]), n).len()
+            && (#[trigger] by_entries_of(b, after, rec_name(b[i]), rec_args(b[i]), n)[x]).original == rec_orig(b[i]),
+    decreases n, i
+{
+    let m = rec_name(b[i]); let a = rec_args(b[i]);
+    let q = by_entries_of(b, after, m, a, n);
+    if i < n - 1 {
+        lemma_every_real_method_is_in_the_parameter_index(b, after, n - 1, i);
+        let p = by_entries_of(b, after, m, a, n - 1);
+        let x = choose|x: int| 0 <= x < p.len() && (#[trigger] p[x]).original == rec_orig(b[i]);
+        assert(q[x] == p[x]);
+    } else {
+        // i == n - 1
+        if first_real(b, after, i) {
+            assert(in_by(b, after, m, a, i));
+            let x = q.len() - 1;
+            assert(q[x].original == rec_orig(b[i]));
+        } else {
+            let j = choose|j: int| 1 <= j < i && #[trigger] counted(b, after, j) && rec_key(b[j]) == rec_key(b[i]);
+            lemma_every_real_method_is_in_the_parameter_index(b, after, n - 1, j);
+            let p = by_entries_of(b, after, m, a, n - 1);
+            let x = choose|x: int| 0 <= x < p.len() && (#[trigger] p[x]).original == rec_orig(b[j]);
+            assert(q[x] == p[x]);
+        }
+    }
+}
+
+// ---- from the block to the mapper: the class stored under a name is the one its LAST block denotes ----
+pub open spec fn block_original<'s>(b: Seq<ProguardRecord<'s>>) -> &'s str { match b[0] { ProguardRecord::Class { original, obfuscated } => original, _ => "" } }
+pub open spec fn no_class_named<'s>(seg: Seq<ProguardRecord<'s>>, k: &'s str) -> bool {
+    forall|i: int| 0 <= i < seg.len() ==> match #[trigger] seg[i] { ProguardRecord::Class { original, obfuscated } => obfuscated != k, _ => true }
+}
+pub proof fn lemma_cur_keeps_name<'a, 's>(s: AState<'s>, seg: Seq<ProguardRecord<'s>>, after: Option<&'a ProguardRecord<'s>>, init: bool, n: int, k: &'s str, c: AClass<'s>)
+    requires 0 <= n <= seg.len(), no_class_named(seg, k), s.cur.obfuscated != k, s.done.contains_key(k), s.done[k] == c,
+    ensures ({ let t = fold_from(s, seg, after, init, n); t.cur.obfuscated != k && t.done.contains_key(k) && t.done[k] == c }),
+    decreases n
+{
+    if n > 0 {
+        lemma_cur_keeps_name(s, seg, after, init, n - 1, k, c);
+        let t = fold_from(s, seg, after, init, n - 1);
+        match seg[n - 1] {
+            ProguardRecord::Class { original, obfuscated } => { assert(obfuscated != k); },
+            _ => {},
+        }
+    }
+}
+pub proof fn lemma_block_original<'a, 's>(s: AState<'s>, b: Seq<ProguardRecord<'s>>, after: Option<&'a ProguardRecord<'s>>, init: bool, n: int)
+    requires is_block(b), 1 <= n <= b.len(),
+    ensures fold_from(s, b, after, init, n).cur.original == block_original(b),
+    decreases n
+{
+    if n > 1 { lemma_block_original(s, b, after, init, n - 1); assert(!is_class_rec(b[n - 1])); }
+}
+
+// THE CLASS A MAPPING DENOTES UNDER AN OBFUSCATED NAME, IN TERMS OF RECORDS: take the last block with that name; its entry list for method m is one entry per
+// method record named m, in file order, each with the file of the last sourceFile header before it; its parameter index for (m, a) is the first occurrences
+// of the distinct original names among the records named m with arguments a that are not inlined callees. Nothing before the block has any influence.
+pub proof fn lemma_class_content_is_what_the_records_of_its_last_block_say<'s>(pre: Seq<ProguardRecord<'s>>, b: Seq<ProguardRecord<'s>>, post: Seq<ProguardRecord<'s>>,
+        init: bool, m: &'s str, a: &'s str)
+    requires is_block(b), post.len() == 0 || is_class_rec(post[0]), no_class_named(post, block_key(b)), block_original(b)@.len() > 0,
+    ensures /*@L:mapper_content_of_a_class_is_one_entry_per_method_record_of_its_last_block_in_file_order:C01,C03*/ ({
+        let all = built(pre + b + post, init);
+        let k = block_key(b);
+        let aft = after_of(post, None, 0);
+        &&& all.contains_key(k)
+        &&& all[k].original == block_original(b) && all[k].obfuscated == k
+        &&& all[k].file_name == file_at(b, b.len() as int)
+        &&& members_of(all[k], m).all == entries_of(b, m, b.len() as int)
+        &&& (all[k].members.contains_key(m) <==> entries_of(b, m, b.len() as int).len() > 0)
+        &&& by_of(members_of(all[k], m), a) == (if init { by_entries_of(b, aft, m, a, b.len() as int) } else { Seq::<MemberMapping<'s>>::empty() })
+    }),
+{
+    let recs = pre + b + post;
+    let s0 = start_state::<'s>();
+    let aft = after_of(post, None, 0);
+    let l = pre.len() as int; let nb = b.len() as int; let np = post.len() as int;
+    let k = block_key(b);
+    lemma_run_is_fold(recs, init, recs.len() as int);
+    lemma_fold_concat(s0, pre + b, post, None, init, np);
+    lemma_fold_concat(s0, pre, b, aft, init, nb);
+    let sp = fold_from(s0, pre, after_of(b, aft, 0), init, l);
+    let x = fold_from(sp, b, aft, init, nb);
+    let fin = fold_from(x, post, None, init, np);
+    assert(run(recs, init, recs.len() as int) == fin);
+    lemma_block_cur_key(sp, b, aft, init, nb);
+    lemma_block_original(sp, b, aft, init, nb);
+    lemma_block_entries(sp, b, aft, init, nb, m);
+    lemma_block_by_params(sp, b, aft, nb, m, a);
+    lemma_block_file_and_seen(sp, b, aft, nb, (m, m, m));
+    let c = x.cur;
+    if np == 0 {
+        assert(fin == x);
+        assert(flush(x.done, x.cur)[k] == c);
+    } else {
+        // the first record of `post` is a class record: it files c under k; nothing later touches k
+        let x1 = fold_from(x, post, None, init, 1);
+        assert(fold_from(x, post, None, init, 0) == x);
+        match post[0] { ProguardRecord::Class { original, obfuscated } => { assert(obfuscated != k); }, _ => {} }
+        assert(x1.done == flush(x.done, x.cur) && x1.done.contains_key(k) && x1.done[k] == c && x1.cur.obfuscated != k);
+        let rest = post.subrange(1, np);
+        assert(post =~= post.subrange(0, 1) + rest);
+        lemma_fold_concat(x, post.subrange(0, 1), rest, None, init, np - 1);
+        assert(fold_from(x, post.subrange(0, 1), after_of(rest, None, 0), init, 1) == x1) by {
+            assert(fold_from(x, post.subrange(0, 1), after_of(rest, None, 0), init, 0) == x);
+            assert(post.subrange(0, 1)[0] == post[0]);
+        }
+        assert(no_class_named(rest, k)) by { assert forall|i: int| 0 <= i < rest.len() implies match #[trigger] rest[i] { ProguardRecord::Class { original, obfuscated } => obfuscated != k, _ => true } by { assert(rest[i] == post[i + 1]); } }
+        lemma_cur_keeps_name(x1, rest, None, init, np - 1, k, c);
+        assert(fin == fold_from(x1, rest, None, init, np - 1));
+        assert(flush(fin.done, fin.cur)[k] == c);
+    }
+}
+// the definitions above say what they are meant to say on a small block (and their hypotheses are satisfiable): a class record and the same method
+// record twice, neither an inlined callee -- two entries in the per-name list, ONE in the parameter index
+pub proof fn lemma_declarative_reading_instance<'s>(c: ProguardRecord<'s>, r: ProguardRecord<'s>)
+    requires c is Class, r is Method, rec_lm(r) is None,
+    ensures ({
+        let b = seq![c, r, r];
+        &&& is_block(b)
+        &&& entries_of(b, rec_name(r), 3).len() == 2
+        &&& by_entries_of(b, None, rec_name(r), rec_args(r), 3).len() == 1
+        &&& by_entries_of(b, None, rec_name(r), rec_args(r), 3)[0].original == rec_orig(r)
+    }),
+{
+    let b = seq![c, r, r];
+    let m = rec_name(r); let a = rec_args(r);
+    assert(b[0] == c && b[1] == r && b[2] == r);
+    assert(is_block(b));
+    reveal_with_fuel(entries_of, 4);
+    reveal_with_fuel(by_entries_of, 4);
+    assert(counted(b, None, 1) && counted(b, None, 2));
+    assert(first_real(b, None, 1));
+    assert(!first_real(b, None, 2));
+    assert(in_by(b, None, m, a, 1) && !in_by(b, None, m, a, 2));
+}
+"""
+
+
 def label_helper_lemmas(text, prop):
     """Every proof function of the lemma text whose statement carries no label gets one (named after the function, charged to `prop`):
     a step of the refinement that fails is a failed obligation of that property, not an anonymous event."""
@@ -1262,5 +1599,6 @@ def build():
                cut(u9_src, r"pub open spec fn wf_for_selftest\b").replace("member_strings_ok", "selftest_member_ok")]
     u.raw("// ---- definitions cut out of the units / contract files that use them (same text) ----\n" + "".join(pieces), "specifications under comparison")
     u.raw(label_helper_lemmas(LEMMA, "C02"), "lemma")
+    u.raw(label_helper_lemmas(DECL, "C01,C03"), "lemma (declarative reading of the fold)")
     u.raw(FOOTER, "footer")
     return u
